@@ -383,12 +383,6 @@ fn check_c07(d: &Doc) -> Result<(), Fail> {
     for (ind, width) in [(Indentation::Spaces(1), Some(1usize)), (Indentation::Spaces(4), Some(4)), (Indentation::FieldNameLength, None)] {
         for iel in [false, true] { for mll in [None, Some(12usize), Some(200)] { for sort in [false, true] {
             let shown = format!("{:?} with indentation {:?}, immediate_empty_line {}, max_line_length_one_liner {:?}, sorted {}", text, width, iel, mll, sort);
-            // listed known finding (class hash-first-line-moved): with immediate_empty_line a multi-line value whose first line
-            // begins with '#' is moved to a continuation line, where the reader takes it for a comment
-            if iel && d.paras.iter().any(|p| p.fields.iter().any(|f| f.first.trim_start().starts_with('#') && !f.conts.is_empty())) {
-                anytext::note_known_pub("C07:hash-first-line-moved", "\"A:#\\n c\\n\" with immediate_empty_line prints \"A:\\n #\\n c\\n\": the line \"#\" is read back as a comment");
-                continue;
-            }
             let by_key = |a: &deb822_lossless::lossless::Entry, b: &deb822_lossless::lossless::Entry| a.key().cmp(&b.key());
             let ident = |_k: &str, v: &str| v.to_string();
             let sorted_items = |p: &Paragraph| { let mut v: Vec<(String, String)> = p.items().collect(); v.sort(); v };
